@@ -72,7 +72,7 @@ def spliced(root):
     return '\n'.join(rec(root)) + '\n'
 
 
-def write(root, base, decoy_dirs=()):
+def write(root, base, decoy_dirs=(), shadow_ancestors=False):
     """materialise the tree under `base`: main file in base/src/..., include dir base/inc; -> (main path, include dir,
     {abs path: (node, [lines as written])}).  Every file name also gets a decoy in each of decoy_dirs."""
     idents = number(root)
@@ -80,16 +80,23 @@ def write(root, base, decoy_dirs=()):
     inc = os.path.join(base, 'inc')
     files = {}
 
-    def place(n, directory):
+    shadows = []
+
+    def place(n, directory, ancestors=()):
         os.makedirs(directory, exist_ok=True)
         path = os.path.join(directory, n['name'])
+        if shadow_ancestors:
+            # a same-named decoy in every directory further up the include chain: those are NOT places the documentation lets an include resolve to
+            for a in ancestors[:-1]:
+                if a not in (directory, inc):
+                    shadows.append(os.path.join(a, n['name']))
         lines = []
         for ln in file_lines(n, idents):
             if isinstance(ln, tuple):
                 c = ln[1]
                 lines.append(include_line(c))
                 cdir = inc if c['where'] == 'inc' else os.path.normpath(os.path.join(directory, c['where']))
-                place(c, cdir)
+                place(c, cdir, tuple(ancestors) + (directory,))
             else:
                 lines.append(ln)
         with open(path, 'w') as f:
@@ -103,6 +110,10 @@ def write(root, base, decoy_dirs=()):
                     f.write('error decoy file %s from the working directory was used\n' % rel)
     os.makedirs(inc, exist_ok=True)
     place(root, src)
+    for p in shadows:
+        if p not in files and not os.path.exists(p):
+            with open(p, 'w') as f:
+                f.write('error decoy %s from a directory further up the include chain was used\n' % os.path.basename(p))
     return os.path.join(src, root['name']), inc, files
 
 
